@@ -181,3 +181,98 @@ Proof.
   exists [mkFx [(s ".emf", s "image/x-emf")]], [(s ".emf", s "image/emf")], (s ".emf").
   vm_compute. intro H. discriminate H.
 Qed.
+
+(* ======================================================================= Part E *)
+Lemma content_type_global_db_dependent :
+  exists (g1 g2 : registry) (path : str), guess_global (fun p => p) g1 path <> guess_global (fun p => p) g2 path.
+Proof. exists [(s ".emf", s "image/emf")], [], (s ".emf"). vm_compute. intro H. discriminate H. Qed.
+
+Lemma content_type_private (ext_of : str -> str) (T : registry) h1 h2 g1 g2 x :
+  extract_after (guess_private ext_of T) h1 g1 x = extract_after (guess_private ext_of T) h2 g2 x.
+Proof. reflexivity. Qed.
+
+(* ======================================================================= Part F *)
+Lemma startswith_self_app p r : startswith (p ++ r) p = true.
+Proof. apply startswith_app. exists r. reflexivity. Qed.
+
+Lemma drop_prefix_app p r : drop_prefix p (p ++ r) = Some r.
+Proof.
+  unfold drop_prefix. rewrite startswith_self_app. f_equal.
+  induction p as [|c p IH]; simpl; [reflexivity | exact IH].
+Qed.
+
+Lemma span_digits_stop ds c r :
+  forallb is_digit ds = true -> is_digit c = false -> span_digits (ds ++ c :: r) = (ds, c :: r).
+Proof.
+  intros D C. induction ds as [|d ds IH]; simpl.
+  - rewrite C. reflexivity.
+  - simpl in D. apply andb_true_iff in D as [D1 D2]. rewrite D1, (IH D2). reflexivity.
+Qed.
+
+Lemma digits_split d : is_digits d = true -> d <> [] /\ forallb is_digit d = true.
+Proof.
+  unfold is_digits. intro H. apply andb_true_iff in H as [H1 H2]. split; [|exact H2].
+  destruct d; [discriminate | discriminate].
+Qed.
+
+Lemma is_nil_false {A} (l : list A) : l <> [] -> is_nil l = false.
+Proof. destruct l; [congruence | reflexivity]. Qed.
+
+Lemma match_show any_gen dn dg did :
+  is_digits dn = true -> is_digits dg = true -> is_digits did = true ->
+  (any_gen || str_eqb dg (s "0")) = true ->
+  match_ind any_gen (show_ind dn dg did) = Some (IND ++ dn ++ SEP ++ dg ++ [41], []).
+Proof.
+  intros Hn Hg Hi Hgen.
+  apply digits_split in Hn as [Nn Dn]. apply digits_split in Hg as [Ng Dg]. apply digits_split in Hi as [Ni Di].
+  unfold match_ind, show_ind. rewrite drop_prefix_app.
+  change (SEP ++ dg ++ SEP ++ did ++ [41]) with (44 :: (32 :: dg ++ SEP ++ did ++ [41])).
+  rewrite (span_digits_stop dn 44 _ Dn eq_refl). rewrite (is_nil_false dn Nn).
+  change (44 :: 32 :: dg ++ SEP ++ did ++ [41]) with (SEP ++ dg ++ SEP ++ did ++ [41]). rewrite drop_prefix_app.
+  change (SEP ++ did ++ [41]) with (44 :: (32 :: did ++ [41])).
+  rewrite (span_digits_stop dg 44 _ Dg eq_refl). rewrite (is_nil_false dg Ng).
+  assert (G : (negb any_gen && negb (str_eqb dg (s "0"))) = false).
+  { destruct any_gen; simpl in *; [reflexivity | rewrite Hgen; reflexivity]. }
+  rewrite G. simpl orb.
+  change (44 :: 32 :: did ++ [41]) with (SEP ++ did ++ [41]). rewrite drop_prefix_app.
+  rewrite (span_digits_stop did 41 [] Di eq_refl). rewrite (is_nil_false did Ni). reflexivity.
+Qed.
+
+Lemma show_ind_cons dn dg did : exists r, show_ind dn dg did = 73 :: r.
+Proof. unfold show_ind, IND. simpl. eexists. reflexivity. Qed.
+
+Lemma strip_show any_gen dn dg did :
+  is_digits dn = true -> is_digits dg = true -> is_digits did = true ->
+  (any_gen || str_eqb dg (s "0")) = true ->
+  strip_ids any_gen (show_ind dn dg did) = Some (IND ++ dn ++ SEP ++ dg ++ [41]).
+Proof.
+  intros Hn Hg Hi Hgen. unfold strip_ids.
+  destruct (show_ind_cons dn dg did) as [r E].
+  pose proof (match_show any_gen dn dg did Hn Hg Hi Hgen) as M.
+  rewrite E in *. simpl List.length. cbn [sub_fuel]. rewrite M. cbn [sub_fuel option_map]. rewrite app_nil_r. reflexivity.
+Qed.
+
+Lemma strip_independent dn dg did1 did2 :
+  is_digits dn = true -> is_digits dg = true -> is_digits did1 = true -> is_digits did2 = true ->
+  strip_ids true (show_ind dn dg did1) = strip_ids true (show_ind dn dg did2)
+  /\ strip_ids true (show_ind dn dg did1) <> None.
+Proof.
+  intros Hn Hg H1 H2. rewrite (strip_show true dn dg did1 Hn Hg H1 eq_refl), (strip_show true dn dg did2 Hn Hg H2 eq_refl).
+  split; [reflexivity | discriminate].
+Qed.
+
+(* the generation-0-only pattern lets the id through for generation 1 *)
+Lemma strip_gen0_only_leaks :
+  exists dn dg did1 did2, is_digits dn = true /\ is_digits dg = true /\ is_digits did1 = true /\ is_digits did2 = true /\
+    strip_ids false (show_ind dn dg did1) <> strip_ids false (show_ind dn dg did2).
+Proof.
+  exists (s "6"), (s "1"), (s "139875842957936"), (s "140458440683120"). repeat split; try reflexivity.
+  vm_compute. intro H. discriminate H.
+Qed.
+
+(* inside an array repr, as it reaches color_space *)
+Lemma strip_in_array :
+  strip_ids true (s "['/ICCBased', IndirectObject(6, 1, 139875842957936)]") = Some (s "['/ICCBased', IndirectObject(6, 1)]")
+  /\ strip_ids true (s "{'/K': IndirectObject(8, 7, 1), '/L': [IndirectObject(10, 0, 22)]}")
+     = Some (s "{'/K': IndirectObject(8, 7), '/L': [IndirectObject(10, 0)]}").
+Proof. split; vm_compute; reflexivity. Qed.
